@@ -9,7 +9,8 @@ for d in "${dirs[@]}"; do
   case "$d" in
     C01-rollover-sync-without-index-publish) checks="C15" ;;
     C10-*) checks="C12" ;;
-    C11-*) checks="C12" ;;
+    C11-skipped-*) checks="C12" ;;
+    C11-stale-*) checks="C11" ;;  # expected miss, see DESIGN.md (third round)
     *) checks="$prop" ;;
   esac
   git -C /repo apply "/verif/seeded/$d/patch.diff" || { echo "$d: PATCH DOES NOT APPLY"; continue; }
